@@ -1376,6 +1376,26 @@ def structural_probes(rng, tier):
     return out
 
 
-LEVEL_TEXT = 'partial'
-LEVEL_NOTE = ''
-TECHNIQUE = 'Coq proof over an abstract NumPy + in-Coq differential correspondence'
+LEVEL_TEXT = ('Partial proof. Proved in Coq for an ARBITRARY ufunc semantics NP (any ufunc, method, dtype, shape, keyword '
+              'options, operand mix and order), arbitrary number type and dtype conversion: the model of '
+              'NumpyTensor.__array_ufunc__ / DiscretizedSpaceElement.__array_ufunc__ / writable_array over a store of '
+              'buffers is transparent -- whenever the ODL call returns, NumPy on the underlying arrays returns, the '
+              'final stores coincide (same numbers, nothing else touched), results are elements of the same kind over '
+              'the buffer NumPy produced with its shape and dtype (discretized: with self\'s partition, restricted to '
+              'the kept axes for reduce), scalars/None pass through, out= containers (element, tensor, ndarray) are '
+              'written and returned (both directions); completeness under the exact guards of the code; wrapping '
+              'shares memory. The full completeness statements are refuted with concrete witnesses (recorded '
+              'findings) and proved for the repaired variants. For the exact array semantics of add/subtract/multiply/'
+              'maximum/minimum/negative/absolute/square/sign: all-sizes shape laws, accumulate prefix/last = reduce, '
+              'add.at accumulates repeated indices (vs. fancy assignment), reduce(add) preserves totals, outer laws. '
+              'Tie to the source: in-Coq correspondence of ODL AND raw NumPy against the model on ~1600 (quick) / ~6500 '
+              '(thorough) calls. Agreement with NumPy for all other ufuncs, dtypes, power spaces and the legacy '
+              'x.ufuncs interface is differential probing only.')
+LEVEL_NOTE = ('NumPy is an external oracle: its type resolution and the numbers of non-modelled ufuncs are taken from '
+              'NumPy per case. Power-space elements (no __array_ufunc__) and x.ufuncs are probed, not modelled; 17 '
+              'recorded discrepancies (findings/C17.json). Exact arithmetic; rounding/NaN/overflow out of scope. '
+              'Theorems over abstract T are closed under the global context; the R-instance laws use the classical '
+              'reals axioms as printed.')
+TECHNIQUE = ('Coq proof parametric in the NumPy semantics (store/heap model of the wrapper layer) + list-induction '
+             'laws of the ufunc methods + in-Coq differential correspondence against ODL and raw NumPy + variant '
+             'switches for recorded findings')
